@@ -13,6 +13,7 @@ Decided (structural, each necessary for fairness/productivity):
    return interleaving goals (typed signatures; a DFSGoal casts silently into a Goal context and
    Conde::solve picks the search by downcast); Conde::from_array / from_vec / from_conjunctions
    keep one branch per clause; disjunction builders are total folds from `fail`.
+ (round 5) the library's own Disj merges breadth-first.
 """
 import streams
 import sym
@@ -168,3 +169,4 @@ def run(ctx, fb, cfg):
 
     C13.check_conde_builder(ctx, lib, R + "K6.conde-builder")
     streams.check_operator_kinds(ctx, lib, R + "K10.operator-search-kind")
+    streams.check_disj_solve(ctx, lib, BFS, R + "K3.disj", "<crate::operator::disj::Disj as crate::solver::Solve>::solve")
